@@ -66,6 +66,13 @@ fn variants(t: &mut Tape, plan: &XzPlan) -> Vec<(XzPlan, String, String)> {
             p.blocks[bi].filters = vec![(id, props.clone()), (0x21, vec![22])];
             v.push((p, "filter_before_lzma2".to_string(), format!("filter 0x{:x} before LZMA2 in block {}", id, bi)));
         }
+        // a foreign filter listed AFTER LZMA2 (also id 0 with empty properties, whose
+        // two bytes look like header padding)
+        for (id, props) in [(0x00u64, vec![]), (0x00, vec![0u8]), (0x03, vec![0]), (0x04, vec![]), (0x0B, vec![]), (0x4000_0000_0000_0001, vec![])] {
+            let mut p = plan.clone();
+            p.blocks[bi].filters = vec![(0x21, vec![22]), (id, props)];
+            v.push((p, "filter_after_lzma2".to_string(), format!("filter 0x{:x} after LZMA2 in block {}", id, bi)));
+        }
         // LZMA2 not last / LZMA2 twice are legal chains for xz only if LZMA2 is last;
         // three and four filters with an unsupported one
         let mut p = plan.clone();
@@ -186,6 +193,7 @@ impl Property for C18 {
                 "check_id" => "fault.fired.unsupported_check_id",
                 "filter_alone" => "fault.fired.unsupported_filter_alone",
                 "filter_before_lzma2" => "fault.fired.unsupported_filter_before_lzma2",
+                "filter_after_lzma2" => "fault.fired.unsupported_filter_after_lzma2",
                 "reserved_block_flag" => "fault.fired.reserved_block_flag",
                 "reserved_stream_flag" => "fault.fired.reserved_stream_flag",
                 "second_stream" => "fault.fired.second_stream",
